@@ -8,6 +8,13 @@ let int_of_z z = match z with Z0 -> 0 | Zpos p -> int_of_pos p | Zneg p -> - (in
 let hexs l = String.concat "" (List.map (fun b -> Printf.sprintf "%02x" (int_of_n b)) l)
 let unhex s = if s = "-" || s = "" then [] else bytes_of_hex s
 let nat s = nat_of_int (int_of_string s)
+let rec pos_of_i64 n = if Int64.compare n 1L <= 0 then XH
+  else if Int64.logand n 1L = 1L then XI (pos_of_i64 (Int64.shift_right_logical n 1)) else XO (pos_of_i64 (Int64.shift_right_logical n 1))
+let n_of_i64 n = if n = 0L then N0 else Npos (pos_of_i64 n)
+let rec i64_of_pos p = match p with XH -> 1L | XO q -> Int64.mul 2L (i64_of_pos q) | XI q -> Int64.add (Int64.mul 2L (i64_of_pos q)) 1L
+let i64_of_n n = match n with N0 -> 0L | Npos p -> i64_of_pos p
+let lim s = if s = "N" then None else if s = "t" then Some O else Some (nat_of_int (int_of_string s))
+(* "F..." = the same fragments with a NULL continuation pointer when there is no continuation part *)
 let parse_frags s =
   if s = "n" then [] else
   List.map unhex (String.split_on_char ',' (String.sub s 1 (String.length s - 1)))
@@ -40,10 +47,21 @@ let rec parse_ops toks = match toks with
     OpGet ({ rbuf = Array.to_list buf; rlen = nat_of_int (Array.length c); rmax = nat_of_int mx; roff = nat_of_int qoff },
            nat off, nat take, v = "1") :: parse_ops r
   | "amsg" :: s :: r -> OpAmsg (n_of_int (int_of_string s)) :: parse_ops r
+  | "appl" :: p :: l :: r -> OpAppL (unhex p, lim l) :: parse_ops r
+  | "amsgl" :: s :: l :: r -> OpAmsgL (n_of_int (int_of_string s), lim l, [n_of_int 0x5a; n_of_int 0x5a]) :: parse_ops r
+  | "amsgle" :: s :: l :: r -> OpAmsgL (n_of_int (int_of_string s), lim l, []) :: parse_ops r
+  | "amsgn" :: r -> OpAmsgNull :: parse_ops r
+  | "null" :: k :: r -> OpNullArg (nat k) :: parse_ops r
+  | "rbig" :: kd :: a :: big :: r ->
+    let k = match kd with
+      | "chr" -> RChr (n_of_int (int_of_string a))
+      | "fcn" -> RFcn (nat a)
+      | _ -> RStr (unhex a) in
+    OpRBig (n_of_i64 (Int64.of_string big), k) :: parse_ops r
   | t :: _ -> failwith ("bad op " ^ t)
 
 let errno e = match e with
-  | BadArgument -> 1 | ERange -> 2 | EInval -> 3 | MissingData -> 16 | _ -> 99
+  | BadArgument -> 1 | ERange -> 2 | EInval -> 3 | BadOperation -> 4 | MissingData -> 16 | MissingBuffer -> 17 | _ -> 99
 let show_out o = match o with
   | ORead (n, None) -> Printf.sprintf "R:%d:*" (int_of_nat n)
   | ORead (n, Some d) -> Printf.sprintf "R:%d:%s" (int_of_nat n) (hexs d)
@@ -58,6 +76,12 @@ let show_out o = match o with
   | OGet (Ok k) -> Printf.sprintf "G:%d" (int_of_nat k)
   | OGet (Err e) -> Printf.sprintf "G:E%d" (errno e)
   | OGet Fault -> "F"
+  | OArrE (e, a) -> Printf.sprintf "D:E%d:%s" (errno e) (hexs a)
+  | OPosE -> "P:E1"
+  | ORBig RSkip -> "P:skip"
+  | ORBig ROverflow -> "P:E1"
+  | ORBig (RAt p) -> Printf.sprintf "P:%Ld" (i64_of_n p)
+  | ORBig RFault -> "F"
   | OFault -> "F"
   | OFuel -> "FUEL"
 
